@@ -390,6 +390,44 @@ func (p c11) Exec(c *fw.Ctx, u *fw.Unit) {
 		c.Violation("render/"+fam+"/metadata", fmt.Sprintf("Metadata() = %+v, want {%s %d}", md, kind, dims), inner, "")
 		return
 	}
+	// accessor order: fresh instances of the same request, read in other orders (scalar
+	// accessors first, pixels bottom-up / column-wise / permuted and twice), directly and
+	// through a Scale wrapper, must give what the fixed-order reading of bc gave
+	if g.W*g.H <= 40000 {
+		want := digest(bc)
+		ord := int(c.Res().Evals % 3)
+		c.Cover("accessor_order", fmt.Sprintf("%s:%d", fam, ord))
+		if o2 := req.call(); o2.panic == nil && o2.err == nil && o2.bc != nil {
+			pv, _ := fw.Call(func() {
+				if got := digestOrdered(o2.bc, b, ord, c.Rand()); got != want {
+					c.Violation("render/"+fam+"/accessor-order", fmt.Sprintf("a second barcode for the same request read in accessor order %d differs from the first one read Bounds, pixels row by row, Content, Metadata, CheckSum, ColorScheme", ord), inner, "")
+				}
+			})
+			if pv != nil {
+				c.Violation("render/"+fam+"/accessor-order", fmt.Sprintf("panic while reading a fresh barcode in accessor order %d: %v", ord, pv), inner, "")
+			}
+		}
+		sw, sh := 2*g.W+3, 2*g.H+1
+		if g.H == 1 {
+			sh = 3
+		}
+		var s1, s2 barcode.Barcode
+		o3, o4 := req.call(), req.call()
+		if o3.panic == nil && o3.err == nil && o3.bc != nil && o4.panic == nil && o4.err == nil && o4.bc != nil {
+			pv, _ := fw.Call(func() {
+				s1, _ = barcode.Scale(o3.bc, sw, sh)
+				s2, _ = barcode.Scale(o4.bc, sw, sh)
+				if s1 != nil && s2 != nil {
+					if digestOrdered(s2, s1.Bounds(), (ord+1)%3, c.Rand()) != digest(s1) {
+						c.Violation("render/"+fam+"/accessor-order-scaled", fmt.Sprintf("a Scale wrapper (%dx%d) of a fresh barcode read in accessor order %d differs from one read in the fixed order", sw, sh, (ord+1)%3), inner, "")
+					}
+				}
+			})
+			if pv != nil {
+				c.Violation("render/"+fam+"/accessor-order-scaled", fmt.Sprintf("panic while reading a Scale wrapper in accessor order %d: %v", (ord+1)%3, pv), inner, "")
+			}
+		}
+	}
 	c.Nontrivial(req.Key())
 	c.Cover("entry_point", req.entryName())
 	if req.Scheme >= 0 {
